@@ -1,6 +1,36 @@
 use std::borrow::Cow;
-use std::fmt::{Debug, Display, Formatter};
+use std::fmt::{Debug, Display, Formatter, Write};
 use std::path::Path;
+
+/// Writes `s` to `f` as a JSON string.
+/// See [RFC 8259 section 7](https://datatracker.ietf.org/doc/html/rfc8259#section-7).
+///
+/// # Errors
+/// Returns `Err` when it fails to write to `f`.
+pub fn write_json_str(f: &mut Formatter<'_>, s: &str) -> Result<(), std::fmt::Error> {
+    f.write_char('"')?;
+    for c in s.chars() {
+        let n = c as u32;
+        if c == '"' {
+            f.write_str("\\\"")?;
+        } else if c == '\\' {
+            f.write_str("\\\\")?;
+        } else if c == '\n' {
+            f.write_str("\\n")?;
+        } else if c == '\r' {
+            f.write_str("\\r")?;
+        } else if c == '\t' {
+            f.write_str("\\t")?;
+        } else if n < 0x20 {
+            f.write_str("\\u00")?;
+            f.write_char(if n < 0x10 { '0' } else { '1' })?;
+            f.write_char(char::from_digit(n % 16, 16).unwrap_or('0'))?;
+        } else {
+            f.write_char(c)?;
+        }
+    }
+    f.write_char('"')
+}
 
 #[derive(Clone, Debug, Eq, Hash, Ord, PartialEq, PartialOrd)]
 pub enum TagValue {
@@ -134,12 +164,22 @@ impl From<usize> for TagValue {
 }
 impl From<f32> for TagValue {
     fn from(value: f32) -> Self {
-        Self::Float(format!("{value}"))
+        // JSON has no NaN or infinities.  Log them as strings.
+        if value.is_finite() {
+            Self::Float(format!("{value}"))
+        } else {
+            Self::String(format!("{value}"))
+        }
     }
 }
 impl From<f64> for TagValue {
     fn from(value: f64) -> Self {
-        Self::Float(format!("{value}"))
+        // JSON has no NaN or infinities.  Log them as strings.
+        if value.is_finite() {
+            Self::Float(format!("{value}"))
+        } else {
+            Self::String(format!("{value}"))
+        }
     }
 }
 impl<T: Into<TagValue>> From<Option<T>> for TagValue {
@@ -153,8 +193,8 @@ impl<T: Into<TagValue>> From<Option<T>> for TagValue {
 impl Display for TagValue {
     fn fmt(&self, f: &mut Formatter<'_>) -> Result<(), std::fmt::Error> {
         match self {
-            TagValue::Str(x) => write!(f, "{x:?}"),
-            TagValue::String(x) => write!(f, "{x:?}"),
+            TagValue::Str(x) => write_json_str(f, x),
+            TagValue::String(x) => write_json_str(f, x),
             TagValue::Bool(x) => Display::fmt(&x, f),
             TagValue::I8(x) => Display::fmt(&x, f),
             TagValue::I16(x) => Display::fmt(&x, f),
